@@ -132,7 +132,22 @@ def crash_case(exe, opts, seed, tag):
             obs.problem("property", what="the store does not open after a crash", open_line=(out or ["?"])[0], where=where)
         else:
             stats["reopened"] += 1
-            bad = [ln for ln in out[1:] if (ln.startswith("PANIC") and "assertion_failed:_this_level" not in ln and "ssts[" not in ln) or "err" in ln.split(" ")[1:2]]
+            # a panic of the selector's assertions (C01's K2) poisons the compaction mutex: every
+            # later step of that session panics on the PoisonError; neither is C04's business
+            selector = False
+            bad = []
+            for ln in out[1:]:
+                if ln.startswith("PANIC"):
+                    if "assertion_failed:_this_level" in ln or "ssts[" in ln:
+                        selector = True
+                    elif selector and "PoisonError" in ln:
+                        pass
+                    else:
+                        bad.append(ln)
+                elif "err" in ln.split(" ")[1:2]:
+                    bad.append(ln)
+            if selector:
+                stats["selector_panics_after_crash"] = 1
             if bad:
                 obs.problem("property", what="the session after the crash reported an error or panicked", out=bad[:4], where=where)
             obs.sync("reopen " + where, full=True)
